@@ -400,9 +400,52 @@ def clause5_cursor(ctx, P):
     ctx.floor("C10.5 R-CURSOR", 6)
 
 
+def clause6_flush(ctx, P, cg):
+    """the backlog flush (the function that loops over the socket write for the write buffer): (a) whenever it returns
+    'go on' with bytes still queued, the queue has been compacted to the start of the buffer - its cursor is a local;
+    (b) it reports 'would block' as success, so no caller may call it in a loop: that loop spins while the peer does not read"""
+    sb = None
+    for f in P.own_functions():
+        if f.base == "buffered_socket.c" and f.loops() and any(c.block in set().union(*f.loops().values())
+                                                                for c in f.calls(("socket_writev_with_prefix", "socket_writev"))):
+            if any(i.op == "store" and _fld(P.term(f, i.a[1]), "to_write") for i in f.all_insts()) and f.ret == "i32" and f.nparams == 1:
+                sb = f
+    if sb is None:
+        raise AnalysisBroken("buffered_socket.c: backlog flush loop not found")
+    bad = None
+    n = 0
+    for v in Q.path_views(ctx, P, sb, loop_iters=2):
+        if v.ret_const() != 0:
+            continue
+        n += 1
+        wrote = [k for k, i in v.insts() if i.op == "store" and _fld(P.term(sb, i.a[1]), "to_write")]
+        # left through the loop condition (nothing queued any more)?
+        drained = False
+        if v.atoms:
+            a, p = v.atoms[-1]
+            drained = a[0] == "cmp" and a[3] == ("const", 0) and _fld(a[2][1] if a[2][0] == "load" else a[2], "to_write") and Q._poleq(a, p)
+        moved = [k for k, i in v.calls() if i.callee and P.srcname_of(i.callee).startswith("llvm.memmove")]
+        if not drained and not (moved and (not wrote or moved[-1] > wrote[-1])):
+            bad = v
+    ctx.ob("C10.5 R-CURSOR", sb, "leftover-is-moved-to-the-front", bad is None and n >= 2,
+           "%s returns 'go on' with bytes still queued on a path that does not move them to the start of the write buffer after the "
+           "last accounting step: the next flush starts at the buffer start again, re-sends bytes that are already out and drops "
+           "the tail" % sb.srcname, witness=bad.witness() if bad else None)
+    sites = P.callers_of(sb)
+    if len(sites) < 2:
+        raise AnalysisBroken("%s: %d call sites" % (sb.srcname, len(sites)))
+    for c in sites:
+        g = c.fn
+        inl = any(c.block in body for body in g.loops().values())
+        ctx.ob("C10.1 R-LOOP", g, Q.ordinal_site(g, c, P) + ":flush-not-retried-in-a-loop", not inl,
+               "%s() is called in a loop in %s: it answers 0 both for 'all sent' and for 'the socket would block', so the loop spins "
+               "(the single-threaded daemon serves nobody) until the peer reads" % (sb.srcname, g.srcname))
+
+
 def run(ctx):
     for cfg in ctx.configs():
         P, cg = cfg.P, cfg.cg
+        clause6_flush(ctx, P, cg)
         clause1_nonblocking(ctx, P, cg)
         clause2_atomic(ctx, P, cg)
         clause3_order(ctx, P)
